@@ -96,7 +96,7 @@ def pipelines(draw, max_depth=3, faults=False):
                            min_size=2, max_size=max_depth))
     # third component: how many items the CALLER takes from that stage's iterator before passing it on
     return {"items": items, "stages": [list(s) for s in stages],
-            "fl": draw(st.sampled_from(["agen", "aclass", "aplain", "list", "iter"])),
+            "fl": draw(st.sampled_from(["agen", "aclass", "aplain", "list", "iter", "aproxy", "areiter", "seq"])),
             "take": draw(st.one_of(st.none(), st.integers(0, 10))),
             "csusp": draw(st.booleans()), "mode": draw(st.sampled_from(["hooks", "bare"]))}
 
